@@ -57,6 +57,14 @@ func (g *G) updateCSM(rows, cols int) *sparse.CSMatrix {
 	return m
 }
 
+// slack re-homes a span in a backing array with spare capacity (contents and length unchanged).
+func (g *G) slack(es *[]sparse.Entry) {
+	if *es == nil {
+		return
+	}
+	*es = append(make([]sparse.Entry, 0, len(*es)+1+g.intn(12)), (*es)...)
+}
+
 func runC11(h *H) {
 	g := h.g
 	n := h.budget(4000, 300000)
@@ -78,6 +86,10 @@ func runC11(h *H) {
 			u := g.updateVec(d2)
 			g.count(rel3("vdim", d1, d2))
 			a, b := cloneVec(v), cloneVec(u)
+			if g.intn(3) == 0 {
+				g.slack(&a.Entries)
+				g.count("slack:receiver")
+			}
 			a.Merge(b)
 			h.emit(h.line("C11", "vmerge").Vec(v).Vec(u).Bar().Vec(a).Vec(b))
 		case 2, 3: // matrix merge
@@ -90,6 +102,12 @@ func runC11(h *H) {
 			g.count(rel3("mrows", r1, r2))
 			g.count(rel3("mcols", c1, c2))
 			x, y := cloneCSM(a), cloneCSM(b)
+			if g.intn(3) == 0 { // receiver rows with room to spare (rows adopted from append-grown updates have it)
+				for i := range x.Entries {
+					g.slack(&x.Entries[i])
+				}
+				g.count("slack:receiver")
+			}
 			x.Merge(y)
 			h.emit(h.line("C11", "mmerge").CSM(a).CSM(b).Bar().CSM(x).CSM(y))
 		case 4: // vector merge history
@@ -97,10 +115,16 @@ func runC11(h *H) {
 			nu := g.intn(h.budget(8, 30)) + 1
 			w := h.line("C11", "vhist").Vec(v).Int(nu)
 			cur := cloneVec(v)
+			slackHist := g.intn(2) == 0
 			for i := 0; i < nu; i++ {
 				u := g.updateVec(g.intn(10))
 				w.Vec(u)
-				cur.Merge(cloneVec(u))
+				uc := cloneVec(u)
+				if slackHist { // updates as append builds them: the receiver adopts arrays with spare capacity
+					g.slack(&uc.Entries)
+					g.slack(&cur.Entries)
+				}
+				cur.Merge(uc)
 			}
 			h.emit(w.Bar().Vec(cur))
 		default: // re-batching of the same assignment sequence (as gRPC Update builds batches)
@@ -210,36 +234,36 @@ func runC10(h *H) {
 			for i := 0; i < nops; i++ {
 				done++
 				pan := safely(func() {
-				switch g.intn(8) {
-				case 0, 1, 2:
-					r, c := dims[g.intn(len(dims))], dims[g.intn(len(dims))]
-					w.Str("setdim").Int(r).Int(c)
-					cur.SetDim(r, c)
-					g.count("op:setdim")
-				case 3:
-					r := dims[g.intn(len(dims))]
-					w.Str("setmajor").Int(r)
-					cur.SetMajorDim(r)
-					g.count("op:setmajor")
-				case 4:
-					c := dims[g.intn(len(dims))]
-					w.Str("setminor").Int(c)
-					cur.SetMinorDim(c)
-					g.count("op:setminor")
-				case 5:
-					w.Str("transpose")
-					t, err := cur.Transpose(ctx)
-					if err != nil {
-						panic(err)
+					switch g.intn(8) {
+					case 0, 1, 2:
+						r, c := dims[g.intn(len(dims))], dims[g.intn(len(dims))]
+						w.Str("setdim").Int(r).Int(c)
+						cur.SetDim(r, c)
+						g.count("op:setdim")
+					case 3:
+						r := dims[g.intn(len(dims))]
+						w.Str("setmajor").Int(r)
+						cur.SetMajorDim(r)
+						g.count("op:setmajor")
+					case 4:
+						c := dims[g.intn(len(dims))]
+						w.Str("setminor").Int(c)
+						cur.SetMinorDim(c)
+						g.count("op:setminor")
+					case 5:
+						w.Str("transpose")
+						t, err := cur.Transpose(ctx)
+						if err != nil {
+							panic(err)
+						}
+						cur = t
+						g.count("op:transpose")
+					default:
+						u := g.updateCSM(g.intn(6), g.intn(6))
+						w.Str("merge").CSM(u)
+						cur.Merge(cloneCSM(u))
+						g.count("op:merge")
 					}
-					cur = t
-					g.count("op:transpose")
-				default:
-					u := g.updateCSM(g.intn(6), g.intn(6))
-					w.Str("merge").CSM(u)
-					cur.Merge(cloneCSM(u))
-					g.count("op:merge")
-				}
 				})
 				if pan != "" {
 					w.Bar().Str("panic")
